@@ -521,4 +521,131 @@ example :
       = true := by
   refine ⟨by decide, by decide, by decide, by decide⟩
 
+/-- The guard of the multi-pass theorems (`hne`: no stored record carries another cause's purpose, i.e. no
+    cause supersedes the open cycle in between) is needed: "h" finished for the *resume* cause; the cause turns
+    to *update* while "h" is deselected (its record is purged as superseded with the rest), then "h" is
+    selected again — and invoked from scratch although its success had been recorded (the mechanism of the
+    findings C14-F9, repaired for resuming handlers by /repo 6c4463d, and C02-F1). -/
+theorem superseding_cause_reruns_witness :
+    ∃ (owned : List Id) (reason : String) (steps : List StepV) (P : Store) (i : Id) (r : Rec),
+      handlerReasons.contains reason = true ∧ (∀ s ∈ steps, ∀ j ∈ s.selected, j ∈ owned) ∧
+      i ∈ owned ∧ P i = some r ∧ r.finished = true ∧
+      ∃ l ∈ invokedSeqV owned reason P steps, (i, 0) ∈ l := by
+  let ok : Outcome := { final := true, delay := none, error := false, subrefs := [] }
+  let again : Outcome := { final := false, delay := some 0, error := true, subrefs := [] }
+  let st (sel : List Id) : StepV :=
+    { now := 0, now1 := 0, exec := fun i _ => if i = "g" then again else ok, selected := sel,
+      limits := fun _ => ⟨none, none⟩, lifecycle := .allAtOnce }
+  let recOf (fin : Bool) (n : Nat) : Rec :=
+    { started := 0, delayed := none, purpose := some "resume", retries := n, success := fin, failure := false, subrefs := [] }
+  refine ⟨["h", "g"], "update", [st ["g"], st ["h", "g"]],
+          (fun i => if i = "h" then some (recOf true 1) else if i = "g" then some (recOf false 1) else none),
+          "h", recOf true 1, by decide, ?_, by decide, by decide, by decide, ?_⟩
+  · intro s hs j hj
+    simp only [List.mem_cons, List.mem_nil_iff, or_false] at hs
+    rcases hs with rfl | rfl <;> simp_all [st]
+  · refine ⟨[("h", 0), ("g", 2)], by decide, by decide⟩
+
+/-! ### A pass composed with the sub-passes of its parents (`cycle2`: one store, one patch, one clock) -/
+
+/-- `cycle2` refines `cycle`: on everything that is not a child of an invoked parent it IS `cycle` with the
+    parents' outcomes produced by their sub-passes — so every theorem above about `cycle` speaks about the
+    composed pass too. -/
+theorem cycle2_refines_cycle (cfg : Cfg) (sub : SubReg) (P : Store) (now : Tick) (execLeaf : Id → Nat → Outcome)
+    (hr : handlerReasons.contains cfg.reason = true) (hne : cfg.selected.isEmpty = false) :
+    (cycle2 cfg sub P now execLeaf).invoked = (cycle cfg P now now (execTop cfg sub P now execLeaf)).invoked ∧
+    (cycle2 cfg sub P now execLeaf).closed = (cycle cfg P now now (execTop cfg sub P now execLeaf)).closed ∧
+    ∀ i, (∀ p, i ∉ sub.children p) →
+      (cycle2 cfg sub P now execLeaf).P' i = (cycle cfg P now now (execTop cfg sub P now execLeaf)).P' i := by
+  rw [cycle2_eq, cycle_main cfg P now now _ hr hne]
+  refine ⟨rfl, rfl, ?_⟩
+  intro i hi
+  simp only
+  have hsw := subWrites_other cfg sub P now execLeaf i
+    ((execOnce cfg (preState cfg P now) now now (execTop cfg sub P now execLeaf)).invoked.map (·.1))
+    (midStore cfg P now) (fun p _ => hi p)
+  have hst : store (subWrites cfg sub P now execLeaf
+        ((execOnce cfg (preState cfg P now) now now (execTop cfg sub P now execLeaf)).invoked.map (·.1))
+        (midStore cfg P now)) (postState cfg P now now (execTop cfg sub P now execLeaf)) i =
+      store (midStore cfg P now) (postState cfg P now now (execTop cfg sub P now execLeaf)) i := by
+    unfold store
+    rw [hsw]
+  unfold postState at hst ⊢
+  by_cases hd : done (execOnce cfg (preState cfg P now) now now (execTop cfg sub P now execLeaf)).st (known cfg) = true
+  · simp only [hd, if_true]
+    unfold purge
+    simp only [hst]
+  · simp only [hd, Bool.false_eq_true, if_false]
+    exact hst
+
+/-- When the composed pass closes the cycle, the records of ALL registered children of every parent invoked
+    in it are gone — no hypothesis linking the two passes is needed any more (cf. `sub_records_purged_on_close`). -/
+theorem cycle2_closed_purges_children (cfg : Cfg) (sub : SubReg) (P : Store) (now : Tick)
+    (execLeaf : Id → Nat → Outcome)
+    (hc : (cycle2 cfg sub P now execLeaf).closed = true)
+    (p : Id) (n : Nat) (hinv : (p, n) ∈ (cycle2 cfg sub P now execLeaf).invoked)
+    (i : Id) (hi : i ∈ sub.children p) :
+    (cycle2 cfg sub P now execLeaf).P' i = none := by
+  rw [cycle2_eq] at hc hinv ⊢
+  simp only at hc hinv ⊢
+  simp only [hc, if_true]
+  obtain ⟨hsel, _⟩ := execOnce_invoked hinv
+  obtain ⟨hs, _, _, hpost⟩ := postState_invoked hinv
+  have hk : p ∈ known cfg := by simp [known, hsel]
+  have hne : (sub.children p).isEmpty = false := by
+    cases hl : sub.children p with
+    | nil => rw [hl] at hi; cases hi
+    | cons _ _ => rfl
+  have hsub : i ∈ allSubrefs (execOnce cfg (preState cfg P now) now now (execTop cfg sub P now execLeaf)).st (known cfg) := by
+    unfold allSubrefs
+    simp only [List.mem_flatMap]
+    refine ⟨p, hk, ?_⟩
+    rw [hpost]
+    simp only [withOutcome]
+    apply List.mem_eraseDups.2
+    simp only [List.mem_append]
+    right
+    simp only [execTop, hne, Bool.false_eq_true, if_false]
+    exact child_in_subrefs cfg sub P now execLeaf p i hi
+  simp [purge, hsub]
+
+/-- A registered child whose success or permanent failure the BODY carries is not invoked by the composed pass. -/
+theorem cycle2_child_no_rerun (cfg : Cfg) (sub : SubReg) (P : Store) (now : Tick) (execLeaf : Id → Nat → Outcome)
+    (i : Id) (n : Nat) (r : Rec) (hP : P i = some r) (hfin : r.finished = true) :
+    (i, n) ∉ (cycle2 cfg sub P now execLeaf).subInvoked := by
+  intro hin
+  rw [cycle2_eq] at hin
+  simp only [List.mem_flatMap] at hin
+  obtain ⟨p, _, hp⟩ := hin
+  by_cases he : (sub.children p).isEmpty = true
+  · simp [he] at hp
+  · simp only [he, Bool.false_eq_true, if_false] at hp
+    have hsel := (by
+      rw [subPass_invoked_eq] at hp
+      exact (execOnce_invoked hp).1 : i ∈ (subCfgOf cfg sub p).selected)
+    exact sub_no_rerun (subCfgOf cfg sub p) P now now execLeaf i n r hsel hP hfin hp
+
+/-- OPEN FINDING C02-F1, as a theorem about the composed model (three passes, each starting from what the
+    previous one left): resume handlers `r0` (children `r0/a`, `r0/b`) and `r1`; in the first pass `r0/a`
+    succeeds, `r0/b` and `r1` are to be retried; then the cause turns to *update* with `r1` deselected: `r0`
+    is re-purposed and keeps its retry series (1, then 2), the superseded progress is purged — and in the
+    third pass the finished child `r0/a` is invoked again from scratch. The full clause "a sub-handler whose
+    success is recorded is never invoked again … across intervening events" is false of the code. -/
+theorem sub_rerun_after_supersede_witness :
+    let ok : Outcome := { final := true, delay := none, error := false, subrefs := [] }
+    let again : Outcome := { final := false, delay := some 0, error := true, subrefs := [] }
+    let sub : SubReg := { children := fun p => if p = "r0" then ["r0/a", "r0/b"] else [],
+                          limits := fun _ => ⟨none, none⟩ }
+    let ex : Id → Nat → Outcome := fun i _ => if i = "r0/a" then ok else again
+    let cfg1 : Cfg := { owned := ["r0", "r1"], selected := ["r0", "r1"], limits := fun _ => ⟨none, none⟩,
+                        reason := "resume", lifecycle := .allAtOnce }
+    let cfg2 : Cfg := { cfg1 with selected := ["r0"], reason := "update" }
+    let c1 := cycle2 cfg1 sub (fun _ => none) 0 ex
+    let c2 := cycle2 cfg2 sub c1.P' 0 ex
+    let c3 := cycle2 cfg2 sub c2.P' 0 ex
+    c1.subInvoked = [("r0/a", 0), ("r0/b", 0)] ∧ ((c1.P' "r0/a").map (·.success)) = some true ∧
+    c2.invoked = [("r0", 1)] ∧ c2.subInvoked = [("r0/b", 1)] ∧ c2.closed = false ∧
+    c3.invoked = [("r0", 2)] ∧ ("r0/a", 0) ∈ c3.subInvoked := by
+  refine ⟨by decide, by decide, by decide, by decide, by decide, by decide, by decide⟩
+
 end Kopf.C02
